@@ -34,11 +34,40 @@ def _cases(tier):
     return r, path, n
 
 
+def _probe_models(v, tier):
+    """ProbeMech.tla: the probing / tie-breaking / renaming mechanism for 2 (thorough: also 3) daemons, every vector of start
+    ticks and every order of datagram arrivals and loop iterations; the configuration without the tiebreak must fail NoSharedName
+    (sanity of the model). MCProbeCases prints the start vectors, which the conflict driver replays on real daemons."""
+    mcs = [core.tlc_mc("ProbeMech", "MCProbeMech.cfg", "c08-probemech", workers=4)]
+    if tier == "thorough":
+        mcs.append(core.tlc_mc("ProbeMech", "MCProbeMech3.cfg", "c08-probemech3", workers=16, timeout=3000))
+    for r in mcs:
+        if not r["ok"]:
+            v.violation("C08.model", {"module": "ProbeMech", "cfg": r["cfg"]}, {"tlc_error": r.get("error", "")[:2000], "cmd": r["cmd"]})
+    nt = core.tlc_mc("ProbeMech", "MCProbeMechNoTie.cfg", "c08-probemech-notie", workers=4)
+    if nt["ok"] or "NoSharedName" not in nt.get("error", "") + nt.get("tail", ""):
+        v.note("ProbeMech without the tiebreak no longer violates NoSharedName: the model has lost its teeth")
+    mcs.append(nt)
+    pc = core.tlc_mc("MCProbeCases", "MCProbeCases.cfg", "c08-probecases", workers=1)
+    path = os.path.join(core.workdir("c08"), "probecases.ndjson")
+    n = 0
+    with open(path, "w") as f:
+        for l in pc["prints"]:
+            m = re.match(r'<<"CASE", "(.*)">>', l.strip())
+            if m:
+                f.write(core._unescape_tla(m.group(1)) + "\n")
+                n += 1
+    pc["prints"] = []
+    mcs.append(pc)
+    return mcs, path, n
+
+
 def run(tier, seed, t0):
     v = core.Verdict(PROP)
     mc, cases, ncases = _cases(tier)
     if not mc["ok"]:
         v.violation("C08.model", {"module": "MCCompare"}, {"tlc_error": mc.get("error", "")[:2000], "cmd": mc["cmd"]})
+    pmcs, pcases, npc = _probe_models(v, tier)
     # (a) comparison + renaming replay
     ctrace = os.path.join(core.workdir("c08"), "compare.ndjson")
     csum = core.harness(["compare", "--cases", cases, "--out", ctrace])
@@ -53,6 +82,11 @@ def run(tier, seed, t0):
     # (b) conflict family
     n = 1200 if tier == "thorough" else 100
     files, _ = daemon.drive("conflict", PROP, seed, tier, n, 8 if tier == "thorough" else 4)
+    # start vectors enumerated from ProbeMech.tla (spec -> implementation): every 6th on every change, all in the thorough tier
+    pstride = 1 if tier == "thorough" else 6
+    pfiles, _ = daemon.drive("probecases", PROP, seed, tier, npc - int(seed) % pstride, 8 if tier == "thorough" else 4,
+                             ["--cases", pcases, "--stride", pstride], "-cases")
+    files += pfiles
     args = {"family": "conflict", "seed": seed, "tier": tier}
     total, hits, foreign = cr["consumed"], set(), {}
     per_daemon = []
@@ -75,8 +109,8 @@ def run(tier, seed, t0):
     for x in vac:
         v.note("vacuous: clause tag %s was never exercised by this run" % x)
     cov = {
-        "states": mc.get("distinct", 0),
-        "transitions": mc.get("generated", 0),
+        "states": mc.get("distinct", 0) + sum(x.get("distinct", 0) for x in pmcs),
+        "transitions": mc.get("generated", 0) + sum(x.get("generated", 0) for x in pmcs),
         "traces_validated_against_impl": nscen + 1,
         "samples": daemon.samples_from(files) + [{"tiebreak_pairs_replayed": ncases, "rename_cases": csum["summary"]["lines"] - ncases}],
         "evaluations": total,
@@ -86,10 +120,11 @@ def run(tier, seed, t0):
                 "(b) driver family 'conflict': two or three real daemons registering the same instance (and mostly the same host) name with different "
                 "addresses / ports at offsets from simultaneous to seconds apart (1 ms resolution, all jitters by seed), and a single daemon receiving a "
                 "conflicting response, a winning / losing competing probe or an identical response before, between and after its probes; afterwards "
-                "queries for old and new names of every type and an unregister. distinct_nontrivial = distinct scenario signatures + distinct list pairs." % ncases,
+                "queries for old and new names of every type and an unregister. (c) ProbeMech.tla model-checked (2 claimants; thorough: 3) and its "
+                "start-tick vectors (MCProbeCases, 0..8 ticks of 250 ms for 2 and 3 claimants) replayed on real daemons with a seeded sub-tick jitter. distinct_nontrivial = distinct scenario signatures + distinct list pairs." % ncases,
         "clause_tags_exercised": sorted(hits),
         "vacuous_tags": vac,
-        "model_checking": [{k: mc.get(k) for k in ("module", "cfg", "generated", "distinct", "depth", "ok", "wall_s")}],
+        "model_checking": [{k: x.get(k) for k in ("module", "cfg", "generated", "distinct", "depth", "ok", "wall_s")} for x in [mc] + pmcs],
         "checker_cmd": "TRACE=<file> tlc -workers 1 -config TraceRespond.cfg TraceRespond.tla (per daemon); TraceConflict.tla (combined); TraceCompare.tla",
         "exhaustive": False,
     }
@@ -118,7 +153,11 @@ def replay(path, seed):
     sid = c["scenario"]["id"]
     a = c["args"]
     out = os.path.join(core.workdir("c08"), "replay.ndjson")
-    core.harness(["conflict", "--from", sid, "--to", sid, "--out", out, "--seed", a["seed"], "--tier", a["tier"]])
+    if c["scenario"].get("family") == "probecases":
+        _, pcases, _ = _probe_models(v, "quick")
+        core.harness(["probecases", "--cases", pcases, "--from", sid // 2, "--to", sid // 2, "--out", out, "--seed", a["seed"], "--tier", a["tier"]])
+    else:
+        core.harness(["conflict", "--from", sid, "--to", sid, "--out", out, "--seed", a["seed"], "--tier", a["tier"]])
     parts = daemon.split_by_daemon(out)
     res = daemon.validate("TraceRespond", "TraceRespond.cfg", parts, "c08-replay")
     daemon.collect(PROP, RESP_PREFIXES, res, parts, v, a)
